@@ -269,4 +269,37 @@ def storePieces (n : Nat) (b : BuilderWithAttributes S) (pending : List (PathDat
 
 end Concat
 
+/-! ## The iterator-side adapters, event by event
+
+`iterator::Transformed` / `iterator::Flattened` / `for_each_flattened` are adapters over ANY
+stream of events (a suffix after some `next()` calls, `skip` / `filter` / `take` / `chain`
+upstream), not only over the complete stream of a well-formed path.  Their contract there:
+what each yields for an event depends on THAT event only. -/
+
+section PerEvent
+variable {π α : Type} [Scalar α]
+
+/-- `iterator::Flattened` on one event: a curve event is replaced by the chain through the
+points of the lyon_geom iterator on its own `from / ctrl / to`; every other event passes -/
+def flatEvent (G : IterFlattener π) : Event π → List (Event π)
+  | .quad a c b => chain a (G.quad a c b)
+  | .cubic a c d b => chain a (G.cubic a c d b)
+  | e => [e]
+
+/-- `for_each_flattened` on one event (attributes interpolated between this event's endpoints) -/
+def flatAttrEvent (F : Flattener π α) : Event (AP π α) → List (Event (AP π α))
+  | .quad a c b => linesA a.2 b.2 a.2 (F.quad a.1 c.1 b.1)
+  | .cubic a c d b => linesA a.2 b.2 a.2 (F.cubic a.1 c.1 d.1 b.1)
+  | e => [e]
+
+/-- `Event::is_edge` (events.rs): `Line | Quadratic | Cubic | End { close: true }` -/
+def Event.isEdge : Event π → Bool
+  | .line .. => true
+  | .quad .. => true
+  | .cubic .. => true
+  | .end_ _ _ true => true
+  | _ => false
+
+end PerEvent
+
 end Lyon.Adapt
